@@ -62,12 +62,12 @@ cpdef object project_idx_to_date(
     Returns:
         Datetime for the index, or None if start is None
     """
-    cdef int seconds
+    cdef long long seconds  # idx * granularity exceeds 32 bits after 68 years
 
     if start is None:
         return None
 
-    seconds = idx * granularity
+    seconds = <long long>idx * granularity
     return start + timedelta(seconds=seconds)
 
 
@@ -122,7 +122,7 @@ cpdef bint is_working_time_fast(
     Returns:
         True if slot is within working hours
     """
-    cdef int seconds
+    cdef long long seconds  # idx * granularity exceeds 32 bits after 68 years
     cdef object dt
     cdef int hour
     cdef int weekday
@@ -131,7 +131,7 @@ cpdef bint is_working_time_fast(
         return False
 
     # Get datetime for slot
-    seconds = slot_idx * granularity
+    seconds = <long long>slot_idx * granularity
     dt = start + timedelta(seconds=seconds)
 
     # Get weekday (0=Monday, 6=Sunday)
